@@ -35,6 +35,11 @@ type Config struct {
 	Cvc5Fallback bool // on z3 unknown: decide the query with cvc5 --solve-bv-as-int (linear 64-bit arithmetic)
 	NoRaceCheck bool // disable the happens-before race check of library code
 	MaxTimerFires int // timer-fire events per path
+	// PromptTime: discrete-event reading of the time model - computation takes no time; the clock
+	// moves only when no goroutine can run, to the due time of the earliest armed timer, which
+	// fires exactly then. A subset of the behaviours of the general model (a machine that is
+	// never late), in which upper bounds on latencies can be stated.
+	PromptTime bool
 	PreemptBound int  // >= 0: explore schedules with at most this many preemptions (no sleep sets); -1: all schedules with sleep sets
 }
 
@@ -114,6 +119,10 @@ type Exec struct {
 	cfg    Config
 
 	firstNewViolation time.Time
+	gomaxprocs        *smt.Term
+	dumpSeq           int
+	lastReportModel   map[string]uint64
+	pathNoteTerms     map[string]*smt.Term
 	qcache            map[string]cachedAnswer
 
 	// exploration state (persists across paths)
@@ -187,6 +196,24 @@ func (ex *Exec) sendAssert(t *smt.Term) {
 	}
 }
 
+// assumeFeasible adds t to the path condition and ends the path at once if that makes it infeasible.
+func (ex *Exec) assumeFeasible(t *smt.Term) {
+	ex.assume(t)
+	if t.IsConst() || ex.inSync {
+		return
+	}
+	if ex.model != nil {
+		return // the current model still satisfies the path condition
+	}
+	r, m := ex.checkSat(nil)
+	if r == smt.Unsat {
+		panic(pathEnd{"infeasible"})
+	}
+	if r == smt.Sat {
+		ex.setModel(m)
+	}
+}
+
 // assume adds t to the path condition.
 func (ex *Exec) assume(t *smt.Term) {
 	if t.IsConst() {
@@ -242,6 +269,20 @@ func (ex *Exec) checkSat(extra *smt.Term) (smt.Result, map[string]uint64) {
 		return c.r, c.m
 	}
 	r, m := ex.checkSatUncached(as)
+	if r == smt.Sat && !ex.modelSatisfies(m, as) {
+		// a solver answered sat with an assignment that does not satisfy the query: never
+		// trusted (seen once with cvc5's integer encoding); the query is re-decided by z3's
+		// bit-blasting tactic with the long budget, and is unknown if that fails too
+		ex.solver.Stats.BadModels++
+		prevPT := ex.solver.PreferTactic
+		ex.solver.NoTactic = false
+		ex.solver.PreferTactic = true
+		r, m = ex.solver.CheckModel(ex.varTerms(), ex.cfg.QueryTimeout, as...)
+		ex.solver.PreferTactic = prevPT
+		if r == smt.Sat && !ex.modelSatisfies(m, as) {
+			r, m = smt.Unknown, nil
+		}
+	}
 	if r != smt.Unknown {
 		if ex.qcache == nil {
 			ex.qcache = map[string]cachedAnswer{}
@@ -280,6 +321,22 @@ func (ex *Exec) queryKey(extra *smt.Term) string {
 	return string(b)
 }
 
+// modelSatisfies evaluates the path condition and the extra assertions under m.
+func (ex *Exec) modelSatisfies(m map[string]uint64, as []*smt.Term) bool {
+	memo := map[*smt.Term]uint64{}
+	for _, t := range ex.pc {
+		if smt.Eval(t, m, memo) == 0 {
+			return false
+		}
+	}
+	for _, t := range as {
+		if smt.Eval(t, m, memo) == 0 {
+			return false
+		}
+	}
+	return true
+}
+
 func (ex *Exec) checkSatUncached(as []*smt.Term) (smt.Result, map[string]uint64) {
 	ex.solver.NoTactic = ex.cfg.ArithFirst && ex.queryTimeout == 0
 	to := ex.queryTimeout
@@ -291,6 +348,10 @@ func (ex *Exec) checkSatUncached(as []*smt.Term) (smt.Result, map[string]uint64)
 		asserts := append(append([]*smt.Term(nil), ex.pc...), as...)
 		script := smt.Script(asserts, ex.varTerms())
 		r2, m2, d := smt.SolveWithCvc5AsInt(script, ex.cfg.QueryTimeout)
+		if dir := os.Getenv("VERIF_DUMP_CVC5"); dir != "" {
+			ex.dumpSeq++
+			os.WriteFile(fmt.Sprintf("%s/q%04d_%v.smt2", dir, ex.dumpSeq, r2), []byte(script), 0o644)
+		}
 		ex.solver.Stats.Time += d
 		ex.solver.Stats.Cvc5++
 		if r2 != smt.Unknown {
@@ -328,10 +389,15 @@ func (ex *Exec) take(idx int, constraint *smt.Term, m map[string]uint64) {
 	}
 	ex.inSync = false
 	cp.levelBefore = ex.solver.Level()
-	if constraint != nil && !cp.forced {
+	if !cp.forced {
+		// every choice point that can be flipped opens a solver scope, also one without a
+		// constraint of its own (a scheduling choice): assumptions made after it (clock
+		// monotonicity, vAssume) must disappear from the solver when it is flipped
 		ex.solver.Push()
-		ex.solver.Assert(constraint)
-		ex.pc = append(ex.pc, constraint)
+		if constraint != nil {
+			ex.solver.Assert(constraint)
+			ex.pc = append(ex.pc, constraint)
+		}
 	}
 	if m != nil {
 		ex.setModel(m)
@@ -542,6 +608,7 @@ func (ex *Exec) opaqueFloat(hint string) Float {
 // ---- model extraction
 
 func (ex *Exec) modelEntries(m map[string]uint64) []ModelEntry {
+	ex.lastReportModel = m
 	out := make([]ModelEntry, 0, len(ex.pathVars))
 	for _, v := range ex.pathVars {
 		val := m[v.Name]
@@ -654,6 +721,18 @@ func (ex *Exec) notes() map[string]string {
 	for k, v := range ex.pathNotes {
 		out[k] = v
 	}
+	// symbolic notes are shown with their value under the model being reported
+	if ex.lastReportModel != nil {
+		memo := map[*smt.Term]uint64{}
+		for k, t := range ex.pathNoteTerms {
+			val := smt.Eval(t, ex.lastReportModel, memo)
+			if t.Sort.K == smt.KBV {
+				out[k] = fmt.Sprintf("%d", ex.ctx.Const(t.Sort.W, val).SVal())
+			} else {
+				out[k] = fmt.Sprintf("%v", val != 0)
+			}
+		}
+	}
 	return out
 }
 
@@ -694,6 +773,8 @@ func (ex *Exec) resetPath() {
 	ex.initDone = map[*ssa.Package]bool{}
 	ex.floatSeq = 0
 	ex.pathNotes = nil
+	ex.pathNoteTerms = nil
+	ex.gomaxprocs = nil
 	ex.syncObjs = map[*Value]interface{}{}
 	ex.ptrIDs = map[*Value]int{}
 	ex.noteSeq = 0
@@ -879,6 +960,13 @@ func (ex *Exec) goPanic(msg string) {
 }
 
 var runtimeErrorType types.Type = types.NewNamed(types.NewTypeName(0, nil, "runtime.Error(symex)", nil), types.Typ[types.String], nil)
+
+func (ex *Exec) noteTerm(k string, t *smt.Term) {
+	if ex.pathNoteTerms == nil {
+		ex.pathNoteTerms = map[string]*smt.Term{}
+	}
+	ex.pathNoteTerms[k] = t
+}
 
 func (ex *Exec) note(k, v string) {
 	if ex.pathNotes == nil {
